@@ -20,6 +20,7 @@ class TimeoutFamily:
 
     def gen(self, rng, idx, opts):
         level = rng.choice(['step', 'act'])
+        snap = opts.get('snap', 'live')
         ons = rng.sample(DURS, rng.randint(1, 3))
         ons = [o for i, o in enumerate(ons) if ms(o) not in [ms(x) for x in ons[:i]]]
         if rng.random() < 0.5:
@@ -50,26 +51,26 @@ class TimeoutFamily:
             times = {max(limits) + 5000}            # several limits in one jump
         times = sorted(t for t in times if t > 0 and all(abs(t - L) >= 500 or t == L for L in limits))
         answer_at = rng.choice([None, None] + list(range(len(times) + 1)))
-        ops = [{'op': 'start', 'mid': 'm1', 'vars': {'pid': 'p1'}}, {'op': 'quiesce'}, {'op': 'snapshot', 'level': 'live'}]
+        ops = [{'op': 'start', 'mid': 'm1', 'vars': {'pid': 'p1'}}, {'op': 'quiesce'}, {'op': 'snapshot', 'level': snap}]
         raced_at = answer_at if (answer_at is not None and answer_at < len(times) and rng.random() < opts.get('race', 0.3)) else None
         for i, t in enumerate(times):
             if raced_at == i:
                 # the answer and the tick are released together from two threads
                 ops += [{'op': 'advance_to', 'target': target, 'ms': t},
                         {'op': 'tick_race', 'spin_us': 0, 'calls': [{'target': {'pid': 'p1', 'key': 'k1', 'state': 'interrupted'}, 'action': rng.choice(['next', 'next', 'skip', 'error', 'submit', 'remove', 'abort']), 'options': {'ecode': 'e1'}}]},
-                        {'op': 'snapshot', 'level': 'live'}]
+                        {'op': 'snapshot', 'level': snap}]
                 continue
             if answer_at == i:
-                ops += [{'op': 'act', 'target': {'pid': 'p1', 'key': 'k1', 'state': 'interrupted'}, 'action': rng.choice(['next', 'next', 'skip', 'error', 'submit', 'remove']), 'options': {'ecode': 'e1'}}, {'op': 'quiesce'}, {'op': 'snapshot', 'level': 'live'}]
+                ops += [{'op': 'act', 'target': {'pid': 'p1', 'key': 'k1', 'state': 'interrupted'}, 'action': rng.choice(['next', 'next', 'skip', 'error', 'submit', 'remove']), 'options': {'ecode': 'e1'}}, {'op': 'quiesce'}, {'op': 'snapshot', 'level': snap}]
             ops += [{'op': 'advance_to', 'target': target, 'ms': t}]
             if opts.get('evict', True) and rng.random() < 0.25:
                 ops.append({'op': 'evict'})          # the process is not cached when the tick comes
-            ops += [{'op': 'tick'}, {'op': 'snapshot', 'level': 'live'}]
+            ops += [{'op': 'tick'}, {'op': 'snapshot', 'level': snap}]
         if answer_at == len(times):
             ops += [{'op': 'act', 'target': {'pid': 'p1', 'key': 'k1', 'state': 'interrupted'}, 'action': 'next'}, {'op': 'quiesce'}]
         for (_, on_, _) in nested:
-            ops += [{'op': 'advance', 'ms': ms(on_) + 700}, {'op': 'tick'}, {'op': 'snapshot', 'level': 'live'}]
-        ops += [{'op': 'advance', 'ms': 1000}, {'op': 'tick'}, {'op': 'tick'}, {'op': 'snapshot', 'level': 'live'}]
+            ops += [{'op': 'advance', 'ms': ms(on_) + 700}, {'op': 'tick'}, {'op': 'snapshot', 'level': snap}]
+        ops += [{'op': 'advance', 'ms': 1000}, {'op': 'tick'}, {'op': 'tick'}, {'op': 'snapshot', 'level': snap}]
         rt = rng.choice([{'flavor': 'current'}, {'flavor': 'current', 'chaos': {'max_yields': 3, 'seed': rng.randrange(1, 1 << 40)}}, {'flavor': 'multi', 'workers': 2}])
         if raced_at is not None:
             rt = {'flavor': 'multi', 'workers': 2, 'chaos': {'max_yields': 2, 'pause_us': rng.choice([0, 30, 100, 300]), 'seed': rng.randrange(1, 1 << 40)}}
